@@ -2,148 +2,108 @@ import Zed.Proofs.CompareTypesSwap
 namespace Zed
 open Zed.Ord
 
-/-! ### the guard -/
-theorem Ty.nnn_under : (t : Ty) → t.nnn = true → t.under.nnn = true
-  | .named _ x, h => by
-    simp only [Ty.nnn, Bool.and_eq_true, Bool.not_eq_true'] at h
-    simpa [Ty.under] using Ty.nnn_under x h.2
-  | .prim _, h | .record _, h | .array _, h | .set _, h | .map _ _, h | .union _, h | .enum _, h | .error _, h => h
-
-/-- for guarded types the underlying type of a named type is its direct inner type -/
-theorem Ty.under_named_of_nnn {n : Name} {x : Ty} (h : (Ty.named n x).nnn = true) : (Ty.named n x).under = x := by
-  simp only [Ty.nnn, Bool.and_eq_true, Bool.not_eq_true'] at h
-  simp [Ty.under, Ty.under_of_not_named h.1]
-
-/-- a guarded type is determined by its underlying type and outermost name -/
-theorem Ty.eq_of_under_rk {a b : Ty} (ha : a.nnn = true) (hb : b.nnn = true)
-    (hu : a.under = b.under) (hr : a.rk = b.rk) : a = b := by
-  cases a with
-  | named n x =>
-    cases b with
-    | named m y =>
-      rw [Ty.under_named_of_nnn ha, Ty.under_named_of_nnn hb] at hu
-      simp only [Ty.rk, Option.some.injEq] at hr
-      rw [hu, hr]
-    | _ => simp [Ty.rk] at hr
-  | _ =>
-    cases b with
-    | named m y => simp [Ty.rk] at hr
-    | _ => simpa [Ty.under] using hu
-
-theorem cmpON_eq_iff : (a b : Option Name) → (cmpON a b = .eq ↔ a = b)
-  | some n, some m => by simp [cmpON, cmpBytes_eq_iff]
-  | some _, none => by simp [cmpON]
-  | none, some _ => by simp [cmpON]
-  | none, none => by simp [cmpON]
-
-end Zed
-namespace Zed
-open Zed.Ord
-
 theorem cmpS_ne_eq_diffkind (u v : Ty) (hu : u.isNamed = false) (hv : v.isNamed = false) (h : u.kind ≠ v.kind) :
     cmpS u v ≠ .eq := by
   rw [cmpS_kind u v hu hv h]; simpa [Nat.compare_eq_eq] using h
 
-theorem cmpTy_eq_iff_of (a b : Ty) (ha : a.isNamed = false) (ga : a.nnn = true) (gb : b.nnn = true)
-    (hS : a ≠ b.under → b.under.isNamed = false → b.under.nnn = true → cmpS a b.under ≠ .eq) :
+theorem cmpTy_eq_iff_of (a b : Ty) (ha : a.isNamed = false)
+    (hS : a ≠ b.under → b.under.isNamed = false → cmpS a b.under ≠ .eq) :
     (cmpTy a b = .eq ↔ a = b) := by
   rw [cmpTy_def]
   have hau := Ty.under_of_not_named ha
   by_cases h : a.under = b.under
-  · rw [if_pos h, cmpRank_eq, cmpON_eq_iff]
-    exact ⟨fun hr => Ty.eq_of_under_rk ga gb h hr, fun e => by rw [e]⟩
+  · rw [if_pos h, cmpRank_eq, cmpChain_eq_iff]
+    exact ⟨fun hr => Ty.eq_of_under_chain a b h hr, fun e => by rw [e]⟩
   · rw [if_neg h]
     constructor
     · intro he
       rw [hau] at h he
-      exact absurd he (hS h (Ty.under_not_named b) (Ty.nnn_under b gb))
+      exact absurd he (hS h (Ty.under_not_named b))
     · intro e; exact absurd (by rw [e]) h
 
 mutual
-theorem cmpTy_eq_iff : (a b : Ty) → a.nnn = true → b.nnn = true → (cmpTy a b = .eq ↔ a = b)
-  | .named n x, b, ga, gb => by
-    have hx : x.isNamed = false ∧ x.nnn = true := by
-      simpa [Ty.nnn, Bool.and_eq_true] using ga
-    have hu : (Ty.named n x).under = x := Ty.under_named_of_nnn ga
+theorem cmpTy_eq_iff : (a b : Ty) → (cmpTy a b = .eq ↔ a = b)
+  | .named n x, b => by
+    have hu : (Ty.named n x).under = x.under := rfl
     rw [cmpTy_def]
     by_cases h : (Ty.named n x).under = b.under
-    · rw [if_pos h, cmpRank_eq, cmpON_eq_iff]
-      exact ⟨fun hr => Ty.eq_of_under_rk ga gb h hr, fun e => by rw [e]⟩
+    · rw [if_pos h, cmpRank_eq, cmpChain_eq_iff]
+      exact ⟨fun hr => Ty.eq_of_under_chain _ b h hr, fun e => by rw [e]⟩
     · rw [if_neg h]
       constructor
       · intro he
         rw [hu] at h he
-        have ih := cmpTy_eq_iff x b.under hx.2 (Ty.nnn_under b gb)
-        rw [cmpTy_def, Ty.under_under, Ty.under_of_not_named hx.1, if_neg h] at ih
-        exact absurd (ih.mp he) h
+        have ih := cmpTy_eq_iff x b.under
+        rw [cmpTy_def, Ty.under_under, if_neg h] at ih
+        have := ih.mp he
+        exact absurd (by rw [this, Ty.under_under]) h
       · intro e; exact absurd (by rw [e]) h
-  | .prim i, b, ga, gb => by
-    refine cmpTy_eq_iff_of _ b rfl ga gb (fun h hv gv => ?_)
+  | .prim i, b => by
+    refine cmpTy_eq_iff_of _ b rfl (fun h hv => ?_)
     generalize b.under = v at *
     cases v with
     | prim j => simp only [cmpS_prim, ne_eq, Nat.compare_eq_eq]; intro e; exact h (by rw [e])
     | named => simp [Ty.isNamed] at hv
     | _ => exact cmpS_ne_eq_diffkind _ _ rfl rfl (by simp)
-  | .record fs, b, ga, gb => by
-    refine cmpTy_eq_iff_of _ b rfl ga gb (fun h hv gv => ?_)
+  | .record fs, b => by
+    refine cmpTy_eq_iff_of _ b rfl (fun h hv => ?_)
     generalize b.under = v at *
     cases v with
     | record gs =>
       intro he
       simp only [cmpS_record, Ordering.then_eq_eq, Nat.compare_eq_eq] at he
-      exact h (by rw [cmpFs_eq fs gs ga gv he.1 he.2.1 he.2.2])
+      exact h (by rw [cmpFs_eq fs gs he.1 he.2.1 he.2.2])
     | named => simp [Ty.isNamed] at hv
     | _ => exact cmpS_ne_eq_diffkind _ _ rfl rfl (by simp)
-  | .array x, b, ga, gb => by
-    refine cmpTy_eq_iff_of _ b rfl ga gb (fun h hv gv => ?_)
+  | .array x, b => by
+    refine cmpTy_eq_iff_of _ b rfl (fun h hv => ?_)
     generalize b.under = v at *
     cases v with
     | array y =>
       intro he; rw [cmpS_array] at he
-      exact h (by rw [(cmpTy_eq_iff x y ga gv).mp he])
+      exact h (by rw [(cmpTy_eq_iff x y).mp he])
     | named => simp [Ty.isNamed] at hv
     | _ => exact cmpS_ne_eq_diffkind _ _ rfl rfl (by simp)
-  | .set x, b, ga, gb => by
-    refine cmpTy_eq_iff_of _ b rfl ga gb (fun h hv gv => ?_)
+  | .set x, b => by
+    refine cmpTy_eq_iff_of _ b rfl (fun h hv => ?_)
     generalize b.under = v at *
     cases v with
     | set y =>
       intro he; rw [cmpS_set] at he
-      exact h (by rw [(cmpTy_eq_iff x y ga gv).mp he])
+      exact h (by rw [(cmpTy_eq_iff x y).mp he])
     | named => simp [Ty.isNamed] at hv
     | _ => exact cmpS_ne_eq_diffkind _ _ rfl rfl (by simp)
-  | .error x, b, ga, gb => by
-    refine cmpTy_eq_iff_of _ b rfl ga gb (fun h hv gv => ?_)
+  | .error x, b => by
+    refine cmpTy_eq_iff_of _ b rfl (fun h hv => ?_)
     generalize b.under = v at *
     cases v with
     | error y =>
       intro he; rw [cmpS_error] at he
-      exact h (by rw [(cmpTy_eq_iff x y ga gv).mp he])
+      exact h (by rw [(cmpTy_eq_iff x y).mp he])
     | named => simp [Ty.isNamed] at hv
     | _ => exact cmpS_ne_eq_diffkind _ _ rfl rfl (by simp)
-  | .map k w, b, ga, gb => by
-    refine cmpTy_eq_iff_of _ b rfl ga gb (fun h hv gv => ?_)
+  | .map k w, b => by
+    refine cmpTy_eq_iff_of _ b rfl (fun h hv => ?_)
     generalize b.under = v at *
     cases v with
     | map k' w' =>
       intro he
       simp only [cmpS_map, Ordering.then_eq_eq] at he
-      simp only [Ty.nnn, Bool.and_eq_true] at ga gv
-      exact h (by rw [(cmpTy_eq_iff k k' ga.1 gv.1).mp he.1, (cmpTy_eq_iff w w' ga.2 gv.2).mp he.2])
+      exact h (by rw [(cmpTy_eq_iff k k').mp he.1, (cmpTy_eq_iff w w').mp he.2])
     | named => simp [Ty.isNamed] at hv
     | _ => exact cmpS_ne_eq_diffkind _ _ rfl rfl (by simp)
-  | .union ts, b, ga, gb => by
-    refine cmpTy_eq_iff_of _ b rfl ga gb (fun h hv gv => ?_)
+  | .union ts, b => by
+    refine cmpTy_eq_iff_of _ b rfl (fun h hv => ?_)
     generalize b.under = v at *
     cases v with
     | union us =>
       intro he
       simp only [cmpS_union, Ordering.then_eq_eq, Nat.compare_eq_eq] at he
-      exact h (by rw [cmpTs_eq ts us ga gv he.1 he.2])
+      exact h (by rw [cmpTs_eq ts us he.1 he.2])
     | named => simp [Ty.isNamed] at hv
     | _ => exact cmpS_ne_eq_diffkind _ _ rfl rfl (by simp)
-  | .enum s, b, ga, gb => by
-    refine cmpTy_eq_iff_of _ b rfl ga gb (fun h hv gv => ?_)
+  | .enum s, b => by
+    refine cmpTy_eq_iff_of _ b rfl (fun h hv => ?_)
     generalize b.under = v at *
     cases v with
     | enum s' =>
@@ -152,27 +112,25 @@ theorem cmpTy_eq_iff : (a b : Ty) → a.nnn = true → b.nnn = true → (cmpTy a
       exact h (by rw [(cmpNames_eq_iff s s' he.1).mp he.2])
     | named => simp [Ty.isNamed] at hv
     | _ => exact cmpS_ne_eq_diffkind _ _ rfl rfl (by simp)
-theorem cmpFs_eq : (fs gs : Fields) → fs.nnn = true → gs.nnn = true → fs.length = gs.length →
+theorem cmpFs_eq : (fs gs : Fields) → fs.length = gs.length →
     cmpFieldNames fs gs = .eq → cmpFs fs gs = .eq → fs = gs
-  | .nil, .nil, _, _, _, _, _ => rfl
-  | .nil, .cons _ _ _, _, _, hl, _, _ => by simp [Fields.length] at hl
-  | .cons _ _ _, .nil, _, _, hl, _, _ => by simp [Fields.length] at hl
-  | .cons n x r, .cons m y s, ga, gb, hl, hn, hc => by
-    simp only [Fields.nnn, Bool.and_eq_true] at ga gb
+  | .nil, .nil, _, _, _ => rfl
+  | .nil, .cons _ _ _, hl, _, _ => by simp [Fields.length] at hl
+  | .cons _ _ _, .nil, hl, _, _ => by simp [Fields.length] at hl
+  | .cons n x r, .cons m y s, hl, hn, hc => by
     simp only [Fields.length, Nat.add_right_cancel_iff] at hl
     simp only [cmpFieldNames, Ordering.then_eq_eq, cmpBytes_eq_iff] at hn
     simp only [cmpFs_cons, Ordering.then_eq_eq] at hc
-    rw [hn.1, (cmpTy_eq_iff x y ga.1 gb.1).mp hc.1, cmpFs_eq r s ga.2 gb.2 hl hn.2 hc.2]
-theorem cmpTs_eq : (ts us : Tys) → ts.nnn = true → us.nnn = true → ts.length = us.length →
+    rw [hn.1, (cmpTy_eq_iff x y).mp hc.1, cmpFs_eq r s hl hn.2 hc.2]
+theorem cmpTs_eq : (ts us : Tys) → ts.length = us.length →
     cmpTs ts us = .eq → ts = us
-  | .nil, .nil, _, _, _, _ => rfl
-  | .nil, .cons _ _, _, _, hl, _ => by simp [Tys.length] at hl
-  | .cons _ _, .nil, _, _, hl, _ => by simp [Tys.length] at hl
-  | .cons x r, .cons y s, ga, gb, hl, hc => by
-    simp only [Tys.nnn, Bool.and_eq_true] at ga gb
+  | .nil, .nil, _, _ => rfl
+  | .nil, .cons _ _, hl, _ => by simp [Tys.length] at hl
+  | .cons _ _, .nil, hl, _ => by simp [Tys.length] at hl
+  | .cons x r, .cons y s, hl, hc => by
     simp only [Tys.length, Nat.add_right_cancel_iff] at hl
     simp only [cmpTs_cons, Ordering.then_eq_eq] at hc
-    rw [(cmpTy_eq_iff x y ga.1 gb.1).mp hc.1, cmpTs_eq r s ga.2 gb.2 hl hc.2]
+    rw [(cmpTy_eq_iff x y).mp hc.1, cmpTs_eq r s hl hc.2]
 end
 
 end Zed
